@@ -736,8 +736,10 @@ func readDump() (d *dumped, stale string, err error) {
 	if err != nil {
 		return nil, "", err
 	}
-	if a, b := d.canonical(), dm.canonical(); a != b {
-		stale = fmt.Sprintf("config file has\n  %s\nconfigmanager holds\n  %s", a, b)
+	if !reflect.DeepEqual(d.routers, dm.routers) || !reflect.DeepEqual(d.clusters, dm.clusters) || !reflect.DeepEqual(d.listeners, dm.listeners) {
+		if a, b := d.canonical(), dm.canonical(); a != b {
+			stale = fmt.Sprintf("config file has\n  %s\nconfigmanager holds\n  %s", a, b)
+		}
 	}
 	return d, stale, nil
 }
@@ -863,7 +865,34 @@ func (r *run) finish() {
 }
 
 // step applies one operation to the model and to MOSN and runs the oracle.
-func (r *run) step(o *op) {
+// touched lists the objects an operation names; only those get the expensive part of the oracle after
+// the step (all objects get it after the last step, and the cheap model comparison after every step).
+func touched(n names, o *op) map[string]bool {
+	t := map[string]bool{}
+	switch o.Kind {
+	case "AddOrUpdateRouters", "AddRoute", "RemoveAllRoutes":
+		t[n.r(o.R)] = true
+	case "RemovePrimaryCluster":
+		for _, k := range o.Ks {
+			t[n.k(k)] = true
+		}
+	case "XdsClusters":
+		for _, xc := range o.XdsCs {
+			t[n.k(xc.K)] = true
+		}
+	case "XdsEndpoints":
+		for _, cla := range o.XdsEs {
+			t[n.k(cla.K)] = true
+		}
+	case "AddOrUpdateListener", "DeleteListener":
+		t[n.l(o.L)] = true
+	default:
+		t[n.k(o.K)] = true
+	}
+	return t
+}
+
+func (r *run) step(o *op, final bool) {
 	m, n, st, classes := r.m, r.n, r.st, r.classes
 	r.ops = append(r.ops, o)
 	e := applyModel(m, n, o)
@@ -919,7 +948,11 @@ func (r *run) step(o *op) {
 	if e.updatedExisting || e.removed {
 		r.nontrivial = true // every step is probed by the oracle, so the update/removal is always probed afterwards
 	}
-	checkState(r.tb, r.part, m, n, r.ops, o, st)
+	var deep map[string]bool // nil = all objects
+	if !final {
+		deep = touched(n, o)
+	}
+	checkState(r.tb, r.part, m, n, r.ops, o, st, deep)
 }
 
 func historyCase(rt *rapid.T) {
@@ -929,7 +962,7 @@ func historyCase(rt *rapid.T) {
 	var prev *op
 	for step := 0; step < steps; step++ {
 		o := genOp(rt, r.m, r.n, step, prev, r.st)
-		r.step(o)
+		r.step(o, step == steps-1)
 		prev = o
 	}
 }
@@ -952,11 +985,17 @@ func cleanup(n names) {
 	for i := 0; i <= 3; i++ {
 		_ = liveDeleteListener(n.l(i))
 	}
+	rm := router.GetRoutersMangerInstance()
+	for i := 0; i <= 3; i++ {
+		if rm.GetRouterWrapperByName(n.r(i)) != nil {
+			_ = rm.AddOrUpdateRouters(routerToV2(n.r(i), []mVhost{{Name: "gone", Domains: []string{"gone.invalid"}}})) // keep what stays behind small
+		}
+	}
 	configmanager.Reset()
 }
 
 // checkState is the oracle run after every step.
-func checkState(tb ev.TB, part string, m *model, n names, ops []*op, last *op, st *caseStats) {
+func checkState(tb ev.TB, part string, m *model, n names, ops []*op, last *op, st *caseStats, deep map[string]bool) {
 	fail := func(sig, format string, a ...interface{}) {
 		ev.Fail(tb, part, sig, "history %s :: after %s: %s", histJSON(ops), last.label(), fmt.Sprintf(format, a...))
 	}
@@ -973,8 +1012,8 @@ func checkState(tb ev.TB, part string, m *model, n names, ops []*op, last *op, s
 		fail("dump/config-file-not-rewritten-after:"+last.label(), "the update changed the effective configuration but did not schedule a dump: %s", stale)
 	}
 	guardLookups(fail, last, func() {
-		checkRouters(m, n, d, last, fail)
-		checkClusters(m, n, d, last, fail)
+		checkRouters(m, n, d, last, fail, deep)
+		checkClusters(m, n, d, last, fail, deep)
 		checkListeners(m, n, d, last, fail, st)
 	})
 }
@@ -995,7 +1034,7 @@ func guardLookups(fail failFn, last *op, f func()) {
 
 type failFn func(sig, format string, a ...interface{})
 
-func checkRouters(m *model, n names, d *dumped, last *op, fail failFn) {
+func checkRouters(m *model, n names, d *dumped, last *op, fail failFn, deep map[string]bool) {
 	rm := router.GetRoutersMangerInstance()
 	op := last.label()
 	// (a) existence, both directions
@@ -1029,13 +1068,16 @@ func checkRouters(m *model, n names, d *dumped, last *op, fail failFn) {
 		if got, want := vhostsString(vhostsFromV2(&liveCfg)), vhostsString(mr.Vhosts); got != want {
 			fail("router/live-config-differs-from-model:"+op, "router %q live config\n  %s\nbut the history yields\n  %s", name, got, want)
 		}
-		// (b) differential: tables built fresh from the dump and from the model answer like the live table
 		live := rw.GetRouters()
-		fresh, ferr := router.NewRouters(stored)
-		ref, _ := router.NewRouters(routerToV2(name, mr.Vhosts))
 		if (live == nil) != !mr.Valid {
 			fail("router/live-table-presence:"+op, "router %q: configuration compilable=%v but live table nil=%v", name, mr.Valid, live == nil)
 		}
+		if deep != nil && !deep[name] {
+			continue
+		}
+		// (b) differential: tables built fresh from the dump and from the model answer like the live table
+		fresh, ferr := router.NewRouters(stored)
+		ref, _ := router.NewRouters(routerToV2(name, mr.Vhosts))
 		if (fresh == nil) != (live == nil) {
 			fail("router/fresh-from-dump-table-presence:"+op, "router %q: live table nil=%v but a table built from the dump nil=%v (%v)", name, live == nil, fresh == nil, ferr)
 		}
@@ -1052,7 +1094,7 @@ func checkRouters(m *model, n names, d *dumped, last *op, fail failFn) {
 	}
 }
 
-func checkClusters(m *model, n names, d *dumped, last *op, fail failFn) {
+func checkClusters(m *model, n names, d *dumped, last *op, fail failFn, deep map[string]bool) {
 	ca := cluster.GetClusterMngAdapterInstance()
 	op := last.label()
 	for name := range d.clusters {
@@ -1108,6 +1150,9 @@ func checkClusters(m *model, n names, d *dumped, last *op, fail failFn) {
 		}
 		if got, want := fmt.Sprintf("lb=%s maxreq=%d buf=%d", stored.LbType, stored.MaxRequestPerConn, stored.ConnBufferLimitBytes), modelAttrs(mc); got != want {
 			fail("cluster/dumped-attributes-differ-from-model:"+op, "cluster %q dumped %s, last written %s", name, got, want)
+		}
+		if deep != nil && !deep[name] {
+			continue
 		}
 		// (b) differential: a cluster built the way start-up builds it from the dump
 		pcs, hostMap := configmanager.ParseClusterConfig([]v2.Cluster{stored})
